@@ -49,13 +49,17 @@ Supply(m) ==
 
 PickExtra ==
   /\ ph = 1 /\ ph' = 2
-  /\ \E oel \in BOOLEAN, ogas \in BOOLEAN, nep \in BOOLEAN, aux \in BOOLEAN, dm \in {"consistent", "absent", "zero"} :
+  /\ \E oel \in BOOLEAN, ogas \in BOOLEAN, nep \in BOOLEAN, aux \in BOOLEAN, bcal \in BOOLEAN, dm \in {"consistent", "absent", "zero"} :
        /\ (aux => mix.el \/ mix.hp)
-       /\ extra' = [oel |-> oel, ogas |-> ogas, nep |-> nep, aux |-> aux]
+       \* the biomass boilers may also heat (another service of the same system, with its own declared output)
+       /\ (bcal => mix.bio = "out" \/ mix.dbio)
+       /\ extra' = [oel |-> oel, ogas |-> ogas, nep |-> nep, aux |-> aux, bcal |-> bcal]
        /\ demand' = dm
        /\ comps' = Supply(mix)
             \o (IF oel THEN <<Used(8, "ELECTRICIDAD", "ILU", Const(60))>> ELSE <<>>)
             \o (IF ogas THEN <<Used(9, "GASNATURAL", "CAL", Const(70))>> ELSE <<>>)
+            \o (IF bcal /\ mix.bio = "out" THEN <<Used(6, "BIOMASA", "CAL", Const(30)), Out(6, "CAL", Const(25))>> ELSE <<>>)
+            \o (IF bcal /\ mix.dbio THEN <<Used(7, "BIOMASADENSIFICADA", "CAL", Const(20)), Out(7, "CAL", Const(15))>> ELSE <<>>)
             \o (IF nep THEN <<Used(0, "ELECTRICIDAD", "NEPB", Const(50))>> ELSE <<>>)
             \o (IF aux THEN <<Aux(IF mix.el THEN 1 ELSE 2, "ACS", Const(10))>> ELSE <<>>)
             \o (IF dm = "absent" THEN <<>> ELSE <<Need("ACS", Const(IF dm = "zero" THEN 0 ELSE Delivered10(mix)))>>)
